@@ -120,6 +120,30 @@ func TestC08WholePackets(t *testing.T) {
 				h.Act("appStep")
 				h.appStep("appStep")
 			},
+			// the connection is lost; on the next one a write gives up inside
+			// the retransmission of the pending transfers, after which the
+			// connection would take bytes again
+			"resendFault": func(rt *rapid.T) {
+				c := h.Current()
+				if c == nil {
+					rt.Skip("no connection")
+				}
+				d := rapid.IntRange(0, 90).Draw(rt, "off")
+				kind := rapid.SampledFrom([]int{sim.WTimeout, sim.WTimeout, sim.WTimeoutProgress, sim.WReset}).Draw(rt, "kind")
+				h.Act("break conn=%d; next-conn armWrite off=connect+%d kind=%s", c.N, d, wfaultNames[kind])
+				h.WithLock(func() {
+					h.NextConnOpts = func(c *sim.Conn) {
+						c.ArmWriteLocked(sim.WFault{Off: connectLen + d, Kind: kind})
+						h.NextConnOpts = nil
+					}
+				})
+				c.Break(false)
+				h.settleInbound()
+				h.appStep("reconnect with a fault inside the resend")
+				h.WithLock(func() { h.NextConnOpts = nil })
+				split = true
+				h.label("write-fault-inside-resend")
+			},
 			"": func(rt *rapid.T) {
 				noPanics(h)
 				h.checkWire()
